@@ -666,6 +666,10 @@ type ExportBatch struct {
 
 // Export exports chunks in batches, calling the callback for each batch
 func (be *BatchExporter) Export(chunks []*Chunk, callback func(ExportBatch) error) error {
+	if be.batchSize <= 0 {
+		return fmt.Errorf("invalid batch size %d: must be positive", be.batchSize)
+	}
+
 	exporter := NewExporterWithConfig(be.config)
 
 	for i := 0; i < len(chunks); i += be.batchSize {
